@@ -1506,31 +1506,40 @@ func (styleFor StyleFor) SetPageComputedStylesT(pageType utils.PageElement, html
 
 // Return tokens with resolved CSS variables.
 func resolveVar(computed map[string]pr.RawTokens, token Token) []Token {
+	return resolveVarPending(computed, token, map[string]bool{})
+}
+
+// [pending] stores the variables being resolved, to detect dependency cycles:
+// a reference to such a variable resolves to nothing, so that the
+// declaration is invalid at computed-value time.
+func resolveVarPending(computed map[string]pr.RawTokens, token Token, pending map[string]bool) []Token {
 	if !validation.HasVar(token) {
 		return nil
 	}
 
 	fn := token.(pa.FunctionBlock)
 	if utils.AsciiLower(fn.Name) != "var" {
+		// resolve the variables used in the arguments, at any depth
 		arguments := []Token{}
 		for _, argument := range fn.Arguments {
-			if fna, isFunction := argument.(pa.FunctionBlock); isFunction && utils.AsciiLower(fna.Name) == "var" {
-				arguments = append(arguments, resolveVar(computed, argument)...)
+			if resolved := resolveVarPending(computed, argument, pending); resolved != nil {
+				arguments = append(arguments, resolved...)
 			} else {
 				arguments = append(arguments, argument)
 			}
 		}
-		token = pa.NewFunctionBlock(token.Pos(), fn.Name, arguments)
-		if resolved := resolveVar(computed, token); len(resolved) != 0 {
-			return resolved
-		}
-		return []Token{token}
+		return []Token{pa.NewFunctionBlock(token.Pos(), fn.Name, arguments)}
 	}
 
 	_, args := pa.ParseFunction(token)
 	// first arg is name, next args are default value
 	varNameToken, default_ := args[0], args[1:]
 	variableName := varNameToken.(pa.Ident).Value
+	if pending[variableName] { // endless recursion
+		return []Token{}
+	}
+	pending[variableName] = true
+	defer delete(pending, variableName)
 
 	source := default_
 	if l := computed[variableName]; len(l) != 0 {
@@ -1538,7 +1547,7 @@ func resolveVar(computed map[string]pr.RawTokens, token Token) []Token {
 	}
 	computedValue := []Token{}
 	for _, value := range source {
-		if resolved := resolveVar(computed, value); resolved != nil {
+		if resolved := resolveVarPending(computed, value, pending); resolved != nil {
 			computedValue = append(computedValue, resolved...)
 		} else {
 			computedValue = append(computedValue, value)
